@@ -31,6 +31,7 @@ EXHAUSTIVE = {"quick": "payload length 0..223 x sequence-counter state 0..7 (179
               "thorough": "payload length 0..223 x sequence-counter state 0..7 x {EByte, USB, Yacht Devices} (5376 messages)"}
 
 _fast = None
+_single = None
 
 
 RAW_OK = True
@@ -40,6 +41,8 @@ def prime():
     global _fast, RAW_OK
     catalog.load()
     _fast = [f for f in catalog.fixpoints() if f["fast"]]
+    global _single
+    _single = [f for f in catalog.fixpoints() if not f["fast"]]
     # If the encoder no longer finds codecs by name where the raw codec is injected, arbitrary payload lengths cannot
     # reach the public encode path: the check then runs on the encodable definitions only (and says so).
     RAW_OK = _raw_seam_problem() is None
@@ -95,6 +98,17 @@ def gen(rng, idx, tier):
             pf = (f["pgn"] >> 8) & 0xFF
             out.append({"json": f["json"], "payload": f["payload"], "pgn": f["pgn"], "id": f["id"], "src": rng.randrange(254),
                         "dst": rng.choice([255, rng.randrange(255)]) if pf < 240 else 255, "prio": rng.randrange(8)})
+    # single-frame traffic between the fast-packet messages (an encoder serves both): it must not touch the counter
+    # in a way that makes two fast-packet messages in a row on a stream look alike (7, 8, 15 ... in between)
+    if rng.random() < 0.35 and _single:
+        mixed = []
+        for spec in out:
+            mixed.append(spec)
+            k = rng.choice([0, 0, 1, 2, 6, 7, 7, 8, 15, 16])
+            for _ in range(k):
+                f = rng.choice(_single)
+                mixed.append({"single": f["json"], "src": rng.randrange(254), "prio": rng.randrange(8)})
+        out = mixed[:160]
     return {"format": fmt, "msgs": out, "pre": rng.randrange(8)}
 
 
@@ -173,6 +187,18 @@ def execute(plan):
     evno = 0
     for mi, spec in enumerate(plan["msgs"]):
         if "raw" in spec and not RAW_OK:
+            continue
+        if "single" in spec:
+            d = json.loads(spec["single"])
+            d["source"], d["priority"] = spec["src"], spec["prio"]
+            d["raw_can_data"] = None
+            try:
+                for p_ in encode(NMEA2000Message.from_json(json.dumps(d))):
+                    _decode_packet(dec, fmt, p_, evno)
+                    evno += 1
+            except Exception:
+                pass                                   # single-frame codecs are C02/C06's business
+            st["single_frame_messages_between"] = st.get("single_frame_messages_between", 0) + 1
             continue
         if "raw" in spec:
             payload = bytes.fromhex(spec["raw"])
@@ -320,5 +346,6 @@ def _expected(refdec, spec):
 
 def describe(plan):
     return {"format": plan["format"], "counter_state_before": plan.get("pre"),
-            "messages": [({"raw_bytes": len(s["raw"]) // 2} if "raw" in s else {"pgn": s["pgn"], "id": s["id"], "bytes": len(s["payload"]) // 2})
+            "messages": [({"raw_bytes": len(s["raw"]) // 2} if "raw" in s else ({"single_frame_message": 1} if "single" in s else
+                                                                                 {"pgn": s["pgn"], "id": s["id"], "bytes": len(s["payload"]) // 2}))
                          for s in plan["msgs"]][:20]}
